@@ -605,4 +605,21 @@ theorem write_back_leaks_default :
 theorem empty_user_options_never_leak (ds : List (String × Option Int)) : (generateOptions true ds []).1 = [] := by
   simp [generateOptions]
 
+/-- **flushed_caches_stay_consistent** — why a cache flush (`importlib.invalidate_caches()`, class `cacheFlush` of
+    `Known.processSettingWrites`) cannot make a run differ from its fresh-process run: emptying any cache of a consistent
+    process leaves it consistent, and `frame_deterministic` holds between any two consistent processes (an empty cache
+    answers every lookup by calling the function, which is what the fresh process does). -/
+theorem flushed_caches_stay_consistent (F : CacheId → Key → Val) (P : CacheId → Key → Bool) (p : Proc)
+    (h : Consistent F P p) (c : CacheId) : Consistent F P (p.setCache c {}) := by
+  intro c' e he hP
+  by_cases hc : c' = c
+  · subst hc; simp [Proc.setCache] at he
+  · simp only [Proc.setCache, hc, if_false] at he; exact h c' e he hP
+
+/-- …hence a deterministic run emits the same output with and without the flush -/
+theorem flush_is_invisible (F : CacheId → Key → Val) (P : CacheId → Key → Bool) (V : CacheId → Val → Val)
+    (hcomp : Compat F P V) (prog : Prog) (hd : Det F P V false prog) (p : Proc) (h : Consistent F P p) (c : CacheId) :
+    (run { proc := p.setCache c {}, dirs := [] } prog).out = (run { proc := p, dirs := [] } prog).out :=
+  frame_deterministic F P V hcomp prog hd _ _ (flushed_caches_stay_consistent F P p h c) h rfl
+
 end SnowModel.Props.C19
